@@ -32,6 +32,9 @@ func init() { units["sendglue"] = runSendGlue }
 //	sendglue/wrong-level        STREAM frame registered at Initial/Handshake, CRYPTO frame at 0-RTT, ...
 //	sendglue/lost-not-requeued  OnLost of a frame owned by the retransmission queue did not put it (exactly once)
 //	                            into the queue of its level (0-RTT and 1-RTT share the application-data queue)
+//	sendglue/frame-without-handler a retransmittable frame (anything but PING) registered without handler
+//	sendglue/wrong-handler      a frame owned by the retransmission queue of another level / a STREAM frame not owned by its stream
+//	sendglue/drop-not-propagated the connection discarded a level but the handler still tracks it
 //	sendglue/pn-not-popped      SentPacket for a packet number that was not the one PopPacketNumber returned
 //	sendglue/error, sendglue/panic
 
@@ -67,6 +70,36 @@ func (g *sglRun) onCall(c *ackhandler.VerifSentPHCall) {
 		for _, id := range append(append([]int64{}, c.Fs...), c.SFs...) {
 			if id >= 0 {
 				r.sentIDs[id] = true
+			}
+		}
+		if !g.conn.KeysAvailable(int(c.L)) {
+			g.fail("wrong-level", fmt.Sprintf("a packet was registered at encryption level %d although no keys of that level exist", c.L))
+		}
+		ids := append(append([]int64{}, c.Fs...), c.SFs...)
+		for i, k := range c.Kinds {
+			if ids[i] >= 0 {
+				h := g.conn.Deco.IDHandler[ids[i]]
+				want := ""
+				switch c.L {
+				case lvInitial:
+					want = "retransmissionQueueInitialAckHandler"
+				case lvHandshake:
+					want = "retransmissionQueueHandshakeAckHandler"
+				default:
+					want = "retransmissionQueueAppDataAckHandler"
+				}
+				if strings.Contains(h, "retransmissionQueue") && !strings.Contains(h, want) {
+					g.fail("wrong-handler", fmt.Sprintf("%s sent at encryption level %d is owned by %s: a loss would be requeued at another level", k, c.L, h))
+				}
+				if k == "*wire.StreamFrame" && !strings.Contains(h, "sendStreamAckHandler") {
+					g.fail("wrong-handler", fmt.Sprintf("STREAM frame registered with handler %s instead of its stream", h))
+				}
+			}
+			if ids[i] < 0 {
+				g.dist["frame-without-handler:"+k]++
+				if k != "*wire.PingFrame" {
+					g.fail("frame-without-handler", fmt.Sprintf("%s registered at level %d without OnAcked/OnLost handler: its loss would go unnoticed", k, c.L))
+				}
 			}
 		}
 		for _, k := range c.Kinds {
@@ -189,6 +222,26 @@ func sglCase(w *bufio.Writer, rng *u.Rng, client, tracer bool, dist map[string]i
 		}
 		return true
 	}
+	drop := func(what string, level int64) bool {
+		now += 5_000_000
+		if !step(what, conn.Drop(int(level), now)) {
+			return false
+		}
+		bad := false
+		if level == lv0RTT {
+			for _, t := range r.v.Tracked() {
+				if t.Space == 2 && t.Level == lv0RTT {
+					bad = true
+				}
+			}
+		} else {
+			bad = r.v.SpaceLive(level)
+		}
+		if bad {
+			g.fail("drop-not-propagated", fmt.Sprintf("the connection discarded encryption level %d but the sent packet handler still tracks packets of it", level))
+		}
+		return true
+	}
 	ackSome := func(level int64) bool {
 		pns := g.pnsByLevel[level]
 		if len(pns) == 0 || !r.v.SpaceLive(level) {
@@ -265,8 +318,7 @@ func sglCase(w *bufio.Writer, rng *u.Rng, client, tracer bool, dist map[string]i
 			goto done
 		}
 		if rng.Chance(1, 2) {
-			now += 10_000_000
-			if !step("0-RTT rejected: dropEncryptionLevel(0-RTT)", conn.Drop(lv0RTT, now)) {
+			if !drop("0-RTT rejected: dropEncryptionLevel(0-RTT)", lv0RTT) {
 				goto done
 			}
 			conn.SetKeys(true, false, false, false)
@@ -280,20 +332,31 @@ func sglCase(w *bufio.Writer, rng *u.Rng, client, tracer bool, dist map[string]i
 		goto done
 	}
 	if !client {
-		now += 5_000_000
-		if !step("first Handshake packet received: dropEncryptionLevel(Initial)", conn.Drop(lvInitial, now)) {
+		if !drop("first Handshake packet received: dropEncryptionLevel(Initial)", lvInitial) {
 			goto done
 		}
 	}
 	if !noise(lvHandshake) {
 		goto done
 	}
-	// --- 1-RTT
+	// --- 1-RTT keys before the handshake is confirmed: Handshake and 1-RTT packets are coalesced
 	conn.SetKeysAdd(4)
+	if rng.Chance(2, 3) {
+		n = rng.Range(50, 600)
+		if !step(fmt.Sprintf("handshakeStream.Write(%d)", n), conn.WriteCrypto(2, n)) || !step("stream.Write", conn.WriteStream(rng.Range(1, 400))) {
+			goto done
+		}
+		conn.QueueControl(rng.Intn(3))
+		now += 3_000_000
+		if !trigger() || !noise(lvHandshake) || !noise(lv1RTT) {
+			goto done
+		}
+	}
+	// --- handshake confirmed
 	conn.Confirm()
 	now += 5_000_000
 	if rng.Chance(3, 4) {
-		if !step("handshake confirmed: dropEncryptionLevel(Handshake)", conn.Drop(lvHandshake, now)) {
+		if !drop("handshake confirmed: dropEncryptionLevel(Handshake)", lvHandshake) {
 			goto done
 		}
 	}
